@@ -129,10 +129,13 @@ def make_scratch(tag):
 BTREE_USE_RE = re.compile(r"^(\s*)(pub\s+)?use\s+std::collections::(\{[^}]*\}|BTreeMap|BTreeSet)\s*;", re.M)
 
 
-def substitute_btree(scratch):
-    """M-BTREE: rewrite `use std::collections::BTree*` to the sorted-Vec model."""
-    shutil.copy(os.path.join(MODELS_DIR, "verif_btree.rs"),
-                os.path.join(scratch, "src", "verif_btree.rs"))
+def substitute_btree(scratch, cap=None):
+    """M-BTREE: rewrite `use std::collections::BTree*` to the inline sorted-array model.
+    `cap` overrides the per-map capacity used under Kani (harness attribute btree_cap)."""
+    src = open(os.path.join(MODELS_DIR, "verif_btree.rs")).read()
+    if cap:
+        src = re.sub(r"(#\[cfg\(kani\)\]\s*pub const CAP: usize = )\d+;", r"\g<1>%d;" % int(cap), src)
+    open(os.path.join(scratch, "src", "verif_btree.rs"), "w").write(src)
     n = 0
     for d, _dirs, files in os.walk(os.path.join(scratch, "src")):
         for f in files:
@@ -158,7 +161,7 @@ def substitute_btree(scratch):
     return n
 
 
-def inject(scratch, files, btree):
+def inject(scratch, files, btree, btree_cap=None):
     """Append harness modules; returns list of (target, harness file)."""
     lib = os.path.join(scratch, "src", "lib.rs")
     s = open(lib).read()
@@ -181,7 +184,7 @@ def inject(scratch, files, btree):
                      "    use crate::verif_common::*;\n    include!(\"%s\");\n}\n" % (modname, f))
         done.append((target_of(f), f))
     if btree:
-        substitute_btree(scratch)
+        substitute_btree(scratch, btree_cap)
     return done
 
 
@@ -526,8 +529,9 @@ def run_check(prop, tier, seed, extra_engines=None, only=None):
             scratch = make_scratch(prop)
             files = sorted(set(h.file for h in hs))
             btree = any(h.attrs.get("btree", "yes") != "no" for h in hs)
+            caps = [int(h.attrs["btree_cap"]) for h in hs if "btree_cap" in h.attrs]
             try:
-                inject(scratch, files, btree=btree)
+                inject(scratch, files, btree=btree, btree_cap=max(caps) if caps else None)
             except RuntimeError as e:
                 log("INCONCLUSIVE: %s" % e)
                 inconclusive.append(str(e))
